@@ -1,7 +1,7 @@
 """C09 - connection views are eventually mutual; disconnects propagate (local steps; QUIC timers outside)."""
 import re, z3
 from common import *
-import e2, mirdump
+import e2, mirdump, kani
 from e2 import *
 from mirsym import models as MD
 from mirsym.sym import derives_from
@@ -272,6 +272,11 @@ def ob_transport_limits(report):
 def check(report, tier, only=None):
     report.trusted += ['quinn: idle timeout / keep-alive detect silent loss; close is observed by the remote', 'std RwLock / HashMap contracts', 'z3 5.1']
     report.outside += ['eventual mutuality of the two views and loss detection within the idle timeout (QUIC timers, network)', 'histories of partitions and healing']
+    jobs = [kani.KaniJob('root', 'c09_varint_contract', 'quinn VarInt on the real code: try_from(n) Ok(n) iff n < 2^62, MAX = 2^62-1, Default = 0, try_from(n).unwrap_or(MAX) = min(n, 2^62-1) '
+                         '(the contract the mirsym obligation transport_limits_saturate assumes)', ['quinn::VarInt::try_from', 'quinn::VarInt::MAX'], {'inputs': 'n: u64 (all 2^64)'})]
+    jobs = [j for j in jobs if not only or any(s_ in j.harness for s_ in only)]
+    if jobs:
+        kani.build_and_run(PROP, ['root'], jobs, report)
     obs = [('disconnect', ob_disconnect), ('remove_transition', C04.ob_remove), ('add_transition', C04.ob_add), ('reason', ob_reason_mapping), ('idle_timeout', ob_transport_config), ('transport_limits', ob_transport_limits),
            ('handler_exit', lambda rep: handler.ob_handler_tail(rep, PROP)), ('connection_end', C12.ob_tail_aborts_tasks),
            # a listed connection always has the handler whose exit delists it (without one a closed connection stays listed for ever)
